@@ -7,9 +7,9 @@ WRAPS = "-Wl," + ",".join("--wrap=" + f for f in ["open", "open64", "read", "wri
 
 def run(ck):
     ck.level = "proof"
-    ck.cov["rule"] = ("scenarios = source kind {regular, directory, fifo, missing} x size {0,1,511,512,513,4095,4096,4097,3 blocks+1} x destination {absent, existing file, same path, "
+    ck.cov["rule"] = ("scenarios = source kind {regular, regular reporting st_size 0, directory, fifo with and without another opener, missing} x size {0,1,511,512,513,4095,4096,4097,3 blocks+1} x destination {absent, existing file, same path, "
                       "hard link, symlink to the source, directory} x overwrite option x kernel copy {works, EXDEV at the first call, EINVAL after a partial copy} x one (thorough: two) "
-                      "injected faults at every position of every call kind (errno or short count; allocation refusal); compared: status, source intact, destination bytes, descriptors "
+                      "injected faults at every position of every call kind (errno or short count; allocation refusal; errno left set by the allocator's release); compared: status, source intact, destination bytes, descriptors "
                       "balanced (API) and the system-call trace (white-box); non-trivial = distinct scenario with at least one fault")
     ck.assumptions += ["abstract file system; outcomes of open/fstat/stat/read/write/copy_file_range/fdatasync/close are oracle-driven",
                        "successful calls leave errno unchanged; failing calls set it non-zero", "no concurrent modification of the files; durability after power loss not modelled"]
@@ -40,12 +40,14 @@ def run(ck):
     for which in ["close-dst", "close-src"]:
         for e in ["EIO", "EINTR", "ENOSPC"]: extra.append(["%s#0=%s" % (which, e)])
     extra.append(["close-dst#0=EIO", "close-src#0=EIO"])
+    for e in ["ENOMEM", "EINVAL", "EIO"]: extra.append(["free#0=%s" % e])     # errno left behind by the allocator's release
+    extra.append(["alloc#0=fail", "free#0=ENOMEM"])
     extra.append(["alloc#0=fail"]); extra.append(["alloc#0=fail", "read#1=short3"]); extra.append(["alloc#0=fail", "write#2=ENOSPC"])
     lines = []
     def add(kind, size, dst, ow, fs):
         lines.append("copy %s %d %s %d %d %s" % (kind, size, dst, ow, blk, " ".join(fs)))
         ck.count_distinct(lines[-1], bool(fs))
-    for kind in ["dir", "fifo", "missing"]:
+    for kind in ["dir", "fifo", "fifo0", "missing"]:
         for ow in (0, 1):
             for dst in ["absent", "file:10"]: add(kind, 0, dst, ow, [])
     full = ck.tier != "quick"
@@ -55,6 +57,10 @@ def run(ck):
         else:
             add("reg", size, dst, ow, mode)
             for ex in rng.sample(extra, 6): add("reg", size, dst, ow, mode + ex)
+    # regular sources that report no size (st_size == 0 whatever the content, as procfs text files do)
+    for size, dst, ow in itertools.product(sizes, ["absent", "file:10", "same"], (0, 1)):
+        add("regz", size, dst, ow, [])
+        for ex in (extra if full else rng.sample(extra, 4)): add("regz", size, dst, ow, ex)
     if full:
         for _ in range(20000):
             size, dst, ow, mode = rng.choice(sizes), rng.choice(dsts), rng.randint(0, 1), rng.choice(modes)
